@@ -47,8 +47,8 @@ func pemOf(der []byte) []byte {
 var (
 	certA = fill(300, 0x30) // two "certificates" of equal DER length
 	certB = fill(300, 0x81)
-	certC = fill(411, 0x55) // another length
-	certS = append(fill(299, 0x11), 0x20) // DER whose last byte happens to be a space
+	certC = fill(411, 0x55)                                        // another length
+	certS = append(fill(299, 0x11), 0x20)                          // DER whose last byte happens to be a space
 	certN = append(append([]byte{0x0a}, fill(298, 0x12)...), 0x0a) // ... first and last byte a line feed
 	datas = [][]byte{
 		fill(32, 1), fill(32, 2), fill(32, 3), fill(32, 4), // 32-byte hashes
@@ -215,7 +215,9 @@ func describe(e esl.Flat) string {
 	return fmt.Sprintf("(%s, %s, %s)", e.Type.Text(), e.Owner.Text(), d)
 }
 
-func entryKey(t guid.G, e esl.Entry) string { return t.Text() + "/" + e.Owner.Text() + "/" + string(e.Data) }
+func entryKey(t guid.G, e esl.Entry) string {
+	return t.Text() + "/" + e.Owner.Text() + "/" + string(e.Data)
+}
 
 // startDuplicates lists the entries that the start state already holds twice in one list.
 func startDuplicates(ls []esl.List) map[string]bool {
